@@ -1481,8 +1481,316 @@ fn fixed_cases() -> Vec<(Vec<Vec<It>>, &'static str)> {
     ]
 }
 
-/// the same libraries through `library!`
-fn macro_cases(rep: &mut Report, drv: &mut Driver) {
+// ------------------------------------------------------------------ use trees (`library!`)
+
+/// `syn::UseTree` as the harness reads it from the text of a `use` declaration
+#[derive(Clone, Debug, PartialEq)]
+enum UseTree {
+    Path(String, Box<UseTree>),
+    Name(String),
+    Rename(String, String),
+    Glob,
+    Group(Vec<UseTree>),
+}
+
+fn use_tokens(src: &str) -> Vec<String> {
+    let cs: Vec<char> = src.chars().collect();
+    let mut out = vec![];
+    let mut i = 0;
+    while i < cs.len() {
+        let c = cs[i];
+        if c.is_whitespace() {
+            i += 1;
+        } else if c.is_alphanumeric() || c == '_' {
+            let st = i;
+            while i < cs.len() && (cs[i].is_alphanumeric() || cs[i] == '_') {
+                i += 1;
+            }
+            out.push(cs[st..i].iter().collect());
+        } else if c == ':' && cs.get(i + 1) == Some(&':') {
+            out.push("::".into());
+            i += 2;
+        } else {
+            out.push(c.to_string());
+            i += 1;
+        }
+    }
+    out
+}
+
+/// `use <tree>;`* — the text is `stringify!` of the very tokens handed to `library!`
+fn parse_use_decls(src: &str) -> Vec<UseTree> {
+    fn tree(t: &[String], i: &mut usize) -> UseTree {
+        let tok = t[*i].clone();
+        *i += 1;
+        match tok.as_str() {
+            "{" => {
+                let mut items = vec![];
+                while t[*i] != "}" {
+                    items.push(tree(t, i));
+                    if t[*i] == "," {
+                        *i += 1;
+                    }
+                }
+                *i += 1;
+                UseTree::Group(items)
+            }
+            "*" => UseTree::Glob,
+            id => {
+                if t.get(*i).map(|s| s.as_str()) == Some("::") {
+                    *i += 1;
+                    UseTree::Path(id.to_string(), Box::new(tree(t, i)))
+                } else if t.get(*i).map(|s| s.as_str()) == Some("as") {
+                    *i += 1;
+                    let r = t[*i].clone();
+                    *i += 1;
+                    UseTree::Rename(id.to_string(), r)
+                } else {
+                    UseTree::Name(id.to_string())
+                }
+            }
+        }
+    }
+    let t = use_tokens(src);
+    let mut i = 0;
+    let mut out = vec![];
+    while i < t.len() {
+        assert_eq!(t[i], "use", "use declaration expected in {src:?}");
+        i += 1;
+        out.push(tree(&t, &mut i));
+        assert_eq!(t[i], ";", "`;` expected in {src:?}");
+        i += 1;
+    }
+    out
+}
+
+/// the property's reading of a `use` declaration: every walk from the root to
+/// a name, left to right; `None` = not expressible as a `roto::Use` (`as`, `*`)
+fn use_leaf_paths(t: &UseTree) -> Option<Vec<Vec<String>>> {
+    fn go(t: &UseTree, prefix: &[String], out: &mut Vec<Vec<String>>) -> bool {
+        match t {
+            UseTree::Name(n) => {
+                let mut p = prefix.to_vec();
+                // `a::b::{self}` names `a::b` itself
+                if n != "self" {
+                    p.push(n.clone());
+                }
+                out.push(p);
+                true
+            }
+            UseTree::Path(n, sub) => {
+                let mut p = prefix.to_vec();
+                p.push(n.clone());
+                go(sub, &p, out)
+            }
+            UseTree::Group(items) => items.iter().map(|i| go(i, prefix, out)).fold(true, |a, b| a && b),
+            UseTree::Rename(..) | UseTree::Glob => false,
+        }
+    }
+    let mut out = vec![];
+    if go(t, &[], &mut out) { Some(out) } else { None }
+}
+
+fn use_tree_lean(t: &UseTree, names: &mut Names, out: &mut String) {
+    match t {
+        UseTree::Path(n, sub) => {
+            out.push_str(&format!("P {} ", names.id(n)));
+            use_tree_lean(sub, names, out);
+        }
+        UseTree::Name(n) => out.push_str(&format!("N {} ", names.id(n))),
+        UseTree::Rename(a, b) => out.push_str(&format!("R {} {} ", names.id(a), names.id(b))),
+        UseTree::Glob => out.push_str("S "),
+        UseTree::Group(items) => {
+            out.push_str(&format!("G {} ", items.len()));
+            for i in items {
+                use_tree_lean(i, names, out);
+            }
+        }
+    }
+}
+
+fn use_shape(t: &UseTree) -> String {
+    // shape signature: nesting of groups and lengths of member paths, names dropped
+    match t {
+        UseTree::Path(_, sub) => format!("p{}", use_shape(sub)),
+        UseTree::Name(n) => if n == "self" { "s".into() } else { "n".into() },
+        UseTree::Rename(..) => "r".into(),
+        UseTree::Glob => "*".into(),
+        UseTree::Group(items) => format!("{{{}}}", items.iter().map(use_shape).collect::<Vec<_>>().join(",")),
+    }
+}
+
+/// the model's answer (`RotoV.Use.flattenSpec`) for the tree
+fn model_use_paths(drv: &mut Driver, t: &UseTree) -> Result<Option<Vec<Vec<String>>>, String> {
+    let mut names = Names::new();
+    names.id("self"); // RotoV.Use.selfIdent = 0
+    let mut req = String::from("c18 flatten ");
+    use_tree_lean(t, &mut names, &mut req);
+    let ans = drv.ask(req.trim_end());
+    if ans == "none" {
+        return Ok(None);
+    }
+    let Some(rest) = ans.strip_prefix("some") else { return Err(format!("driver answered {ans:?} to {req:?}")) };
+    let mut out = vec![];
+    for p in rest.split_whitespace() {
+        let mut path = vec![];
+        for seg in p.split('.') {
+            let i: usize = seg.parse().map_err(|_| format!("driver answered {ans:?}"))?;
+            path.push(names.list.get(i).cloned().ok_or_else(|| format!("driver answered {ans:?}"))?);
+        }
+        out.push(path);
+    }
+    Ok(Some(out))
+}
+
+// ------------------------------------------------------------------ `library!` fixtures
+
+struct MacroCase {
+    mk: Box<dyn Fn() -> roto::Library>,
+    /// the same library as an item tree (its `Use` items carry what the
+    /// property says the `use` declarations name)
+    tree: Vec<It>,
+    note: String,
+    /// text of the `use` declarations handed to the macro, in order (for the fixtures built around them)
+    uses: Option<&'static str>,
+}
+
+/// The module tree every use-tree fixture imports from. The same name `x`
+/// exists at every level so that a path with a wrong prefix still names
+/// *something* — the silent case.
+macro_rules! use_fixture {
+    ($($u:tt)*) => {
+        (
+            Box::new(|| library! {
+                mod a {
+                    fn one() -> u64 { 1 }
+                    fn x() -> u64 { 10 }
+                    const KA: u64 = 11;
+                    mod b {
+                        fn two() -> u64 { 2 }
+                        fn x() -> u64 { 20 }
+                        mod c {
+                            fn three() -> u64 { 3 }
+                            fn four() -> u64 { 4 }
+                            fn x() -> u64 { 30 }
+                            mod d {
+                                fn five() -> u64 { 5 }
+                                fn x() -> u64 { 40 }
+                            }
+                        }
+                        mod e {
+                            fn six() -> u64 { 6 }
+                            fn x() -> u64 { 60 }
+                        }
+                    }
+                    mod f {
+                        fn seven() -> u64 { 7 }
+                        const K: u64 = 70;
+                        fn x() -> u64 { 71 }
+                        #[clone] type T = Val<M<2>>;
+                    }
+                }
+                mod g {
+                    fn eight() -> u64 { 8 }
+                    mod h {
+                        fn nine() -> u64 { 9 }
+                        fn x() -> u64 { 90 }
+                    }
+                }
+                impl Val<M<2>> {
+                    fn me(_v: Val<M<2>>) -> u64 { 73 }
+                    fn sm() -> u64 { 74 }
+                }
+                $($u)*
+            }) as Box<dyn Fn() -> roto::Library>,
+            stringify!($($u)*),
+        )
+    };
+}
+
+/// all six orders of a three-member group under a prefix
+macro_rules! use_perms3 {
+    ($v:ident; $($pre:ident)::+; [$($a:tt)*] [$($b:tt)*] [$($c:tt)*]) => {
+        $v.push(use_fixture!(use $($pre)::+::{$($a)*, $($b)*, $($c)*};));
+        $v.push(use_fixture!(use $($pre)::+::{$($a)*, $($c)*, $($b)*};));
+        $v.push(use_fixture!(use $($pre)::+::{$($b)*, $($a)*, $($c)*};));
+        $v.push(use_fixture!(use $($pre)::+::{$($b)*, $($c)*, $($a)*};));
+        $v.push(use_fixture!(use $($pre)::+::{$($c)*, $($a)*, $($b)*};));
+        $v.push(use_fixture!(use $($pre)::+::{$($c)*, $($b)*, $($a)*};));
+    };
+}
+
+fn use_fixture_tree() -> Vec<It> {
+    let k = |n: &str, tag: u64| It::Const { name: s(n), ty: None, tag };
+    vec![
+        module("a", vec![
+            f("one", 1), f("x", 10), k("KA", 11),
+            module("b", vec![
+                f("two", 2), f("x", 20),
+                module("c", vec![f("three", 3), f("four", 4), f("x", 30), module("d", vec![f("five", 5), f("x", 40)])]),
+                module("e", vec![f("six", 6), f("x", 60)]),
+            ]),
+            module("f", vec![f("seven", 7), k("K", 70), f("x", 71), It::Type { name: s("T"), m: 2 }]),
+        ]),
+        module("g", vec![f("eight", 8), module("h", vec![f("nine", 9), f("x", 90)])]),
+        It::Impl { ty: Some(2), ch: vec![It::Fn { name: s("me"), shape: Shape::S1(2), tag: 73 }, f("sm", 74)] },
+    ]
+}
+
+/// `use` declarations of every shape over the fixture tree: single paths,
+/// flat groups, a multi-segment member before / after / between single-segment
+/// members, groups nested two and three deep in every order, groups directly
+/// in groups, one-member and empty groups, top-level groups, trailing commas,
+/// several declarations, modules / constants / types as targets, `self`.
+fn use_fixtures() -> Vec<(Box<dyn Fn() -> roto::Library>, &'static str)> {
+    let mut v = use_fixtures_listed();
+    // every order of: a nested group with a multi-segment member, a multi-segment member, a single name
+    use_perms3!(v; a; [b::c::{three, d::five}] [b::two] [x]);
+    // … and one level down, with a group of depth two, a name of the same spelling as an inner one, `self`
+    use_perms3!(v; a::b; [c::{d::{five}, four}] [x] [self]);
+    v
+}
+
+fn use_fixtures_listed() -> Vec<(Box<dyn Fn() -> roto::Library>, &'static str)> {
+    vec![
+        use_fixture!(use a::one;),
+        use_fixture!(use a::b::c::d::five;),
+        use_fixture!(use a::{one, x};),
+        use_fixture!(use a::{b::two, one};),
+        use_fixture!(use a::{one, b::two};),
+        use_fixture!(use a::{one, b::two, KA};),
+        use_fixture!(use a::{b::c::d::five, x};),
+        use_fixture!(use a::{x, b::c::d::five};),
+        use_fixture!(use a::b::{c::d::x, two};),
+        use_fixture!(use a::{b::{c::{three, four}, two}, one};),
+        use_fixture!(use a::{one, b::{two, c::{three, four}}};),
+        use_fixture!(use a::{b::{two, c::{three, four}}, one};),
+        use_fixture!(use a::{b::{c::{three, four}, x}, one};),
+        use_fixture!(use a::{b::{c::{d::five, x}, two}, KA};),
+        use_fixture!(use a::{b::{c::three}, one};),
+        use_fixture!(use a::{{b::two}, one};),
+        use_fixture!(use a::{{b::{c::{d::five}}}, {x}};),
+        use_fixture!(use {a::one, g::eight};),
+        use_fixture!(use {a::{b::two, one}, g::{h::nine, eight}};),
+        use_fixture!(use {g::{h::x, eight}, a::{b::c::three, one}};),
+        use_fixture!(use a::{f::{seven, K}, b::e::six, one};),
+        use_fixture!(use a::b::c::{d::five, three, d::x};),
+        use_fixture!(use a::{b::two, f::seven, b::c::three, one};),
+        use_fixture!(use a::{b::c, f};),
+        use_fixture!(use a::{b::c::d, KA, f::T};),
+        use_fixture!(use a::{b::two, one,};),
+        use_fixture!(use a::{b::{two,}, one,};),
+        use_fixture!(use a::{};),
+        use_fixture!(use a::{b::{}, one};),
+        use_fixture!(use a::{b::two, one}; use g::{h::nine, eight};),
+        use_fixture!(use a::b::{two}; use a::{b::c::x, KA};),
+        use_fixture!(use a::b::{self, two};),
+        use_fixture!(use a::{b::{self}, one};),
+        use_fixture!(use a::{b::c::{d::five, self}, f::{self}, KA};),
+    ]
+}
+
+fn macro_case_list() -> Vec<MacroCase> {
     // 1: nested modules, a three-segment use, a type with methods, constants
     let lib1 = || {
         library! {
@@ -1529,13 +1837,147 @@ fn macro_cases(rep: &mut Report, drv: &mut Driver) {
         }
     };
     let tree3 = vec![It::Const { name: s("V"), ty: Some(1), tag: 921 }, module("n", vec![It::Type { name: s("U"), m: 1 }])];
-    let cases: Vec<(Box<dyn Fn() -> roto::Library>, Vec<It>, &str)> =
-        vec![(Box::new(lib1), tree1, "library! shape 1"), (Box::new(lib2), tree2, "library! shape 2"), (Box::new(lib3), tree3, "library! shape 3")];
-    for (mk, tree, note) in cases {
+    let mut cases = vec![
+        MacroCase { mk: Box::new(lib1), tree: tree1, note: s("library! shape 1"), uses: None },
+        MacroCase { mk: Box::new(lib2), tree: tree2, note: s("library! shape 2"), uses: None },
+        MacroCase { mk: Box::new(lib3), tree: tree3, note: s("library! shape 3"), uses: None },
+    ];
+    for (mk, text) in use_fixtures() {
+        let mut tree = use_fixture_tree();
+        for d in parse_use_decls(text) {
+            let paths = use_leaf_paths(&d).expect("fixtures have no `as` / `*`");
+            tree.push(It::Use { paths });
+        }
+        let text1 = use_tokens(text).join(" ").replace(" :: ", "::").replace(" ,", ",").replace(" ;", ";");
+        cases.push(MacroCase { mk, tree, note: format!("library! {text1}"), uses: Some(text) });
+    }
+    cases
+}
+
+/// an item tree in one line (names, nesting, order, number of parameters,
+/// type labels, import paths) — from the harness's tree and from the hook's dump
+fn join_items(mut v: Vec<String>, sorted: bool) -> String {
+    if sorted {
+        v.sort();
+    }
+    v.join(" ")
+}
+fn use_line(paths: &[Vec<String>], sorted: bool) -> String {
+    format!("use {}", join_items(paths.iter().map(|p| p.join("::")).collect(), sorted).replace(' ', "+"))
+}
+fn tree_line(items: &[It], sorted: bool) -> String {
+    let ty = |t: &TyRef| t.map(|i| format!("M{i}")).unwrap_or_else(|| "u64".into());
+    join_items(items.iter().map(|it| match it {
+        It::Module { name, ch } => format!("mod {name}[{}]", tree_line(ch, sorted)),
+        It::Type { name, m } => format!("type {name}:M{m}"),
+        It::Fn { name, shape, .. } => format!("fn {name}/{}", match shape { Shape::S0 | Shape::S3(_) => 0, Shape::S4(_) => 2, _ => 1 }),
+        It::Const { name, ty: t, .. } => format!("const {name}:{}", ty(t)),
+        It::Impl { ty: t, ch } => format!("impl {}[{}]", ty(t), tree_line(ch, sorted)),
+        It::Use { paths } => use_line(paths, sorted),
+    }).collect(), sorted)
+}
+fn dump_line(v: &J, sorted: bool) -> String {
+    let kids = |v: &J| v["ch"].as_array().map(|a| dump_line(&J::Array(a.clone()), sorted)).unwrap_or_default();
+    v.as_array().map(|a| join_items(a.iter().map(|it| {
+        if let Some(n) = it["mod"].as_str() {
+            format!("mod {n}[{}]", kids(it))
+        } else if let Some(n) = it["type"].as_str() {
+            format!("type {n}:{}", it["ty"].as_str().unwrap_or("?"))
+        } else if let Some(n) = it["fn"].as_str() {
+            format!("fn {n}/{}", it["params"].as_array().map(|p| p.len()).unwrap_or(0))
+        } else if let Some(n) = it["const"].as_str() {
+            format!("const {n}:{}", it["ty"].as_str().unwrap_or("?"))
+        } else if let Some(t) = it["impl"].as_str() {
+            format!("impl {t}[{}]", kids(it))
+        } else {
+            use_line(&dump_use_paths(it), sorted)
+        }
+    }).collect(), sorted)).unwrap_or_default()
+}
+fn dump_use_paths(it: &J) -> Vec<Vec<String>> {
+    it["use"].as_array().map(|a| a.iter().map(|p| p.as_array().map(|q| q.iter().map(|x| x.as_str().unwrap_or("?").to_string()).collect()).unwrap_or_default()).collect()).unwrap_or_default()
+}
+fn type_labels() -> Vec<(std::any::TypeId, String)> {
+    let mut out = vec![(std::any::TypeId::of::<u64>(), "u64".to_string())];
+    for i in 0..NM {
+        with_m!(i, T => out.push((std::any::TypeId::of::<Val<T>>(), format!("M{i}"))));
+    }
+    out
+}
+
+/// `library!`-built libraries: the macro's expansion must be the item tree
+/// that was written (names, nesting, order, import paths of every `use`), the
+/// paths of each `use` must be what the model (`flattenSpec`) and the property
+/// say the declaration names, and registering the expansion must make every
+/// item usable from a script at every path (declared and imported).
+fn macro_cases(rep: &mut Report, drv: &mut Driver, only: Option<&str>) {
+    for MacroCase { mk, tree, note, uses } in macro_case_list() {
+        if let Some(o) = only {
+            if o != note {
+                continue;
+            }
+        }
+        let note = note.as_str();
+        let input = json!({"macro": note, "libs": libs_json(&[tree.clone()])});
         // the tree through the item API (compared with model and oracle) …
         let r = check_session(rep, drv, &[vec![tree.clone()]], note, 0);
         rep.class(format!("macro {}", r.class));
-        // … and the macro's expansion must behave the same
+        // … the macro's expansion must be that tree …
+        rep.evaluations += 1;
+        let built = catch_unwind(AssertUnwindSafe(|| {
+            let lib = mk();
+            let dump = roto::verif_hooks::c18::dump_library(&lib, &type_labels());
+            (lib, dump)
+        }));
+        let Ok((lib, dump)) = built else {
+            rep.violation(&format!("{note}: building the library panicked"), "panic build macro", input.clone());
+            continue;
+        };
+        let dumped: J = serde_json::from_str(&dump).unwrap_or(J::Null);
+        if let Some(text) = uses {
+            let decls = parse_use_decls(text);
+            let emitted: Vec<Vec<Vec<String>>> = dumped.as_array().map(|a| a.iter().filter(|i| !i["use"].is_null()).map(dump_use_paths).collect()).unwrap_or_default();
+            for (k, d) in decls.iter().enumerate() {
+                let want = use_leaf_paths(d);
+                rep.class(format!("use-tree {}", use_shape(d)));
+                rep.hist("use-tree leaves", want.as_ref().map(|w| w.len()).unwrap_or(0).to_string());
+                // model vs the property's reading
+                match model_use_paths(drv, d) {
+                    Ok(m) if m == want => {}
+                    Ok(m) => rep.mismatch(&format!("{note}: use declaration {k}: model (flattenSpec) {:?}, oracle {:?}", m, want), input.clone()),
+                    Err(e) => rep.mismatch(&format!("{note}: {e}"), input.clone()),
+                }
+                // the macro's expansion vs the property's reading
+                let got = emitted.get(k).cloned();
+                let sorted = |x: &Option<Vec<Vec<String>>>| x.clone().map(|mut v| { v.sort(); v });
+                if got != want && sorted(&got) == sorted(&want) {
+                    // the same paths in another order: registration does not depend on it (the property
+                    // holds), but the source no longer does what the model says
+                    rep.mismatch(&format!("{note}: the `use` item built by library! lists {:?}; the declaration lists {:?} (order)", got, want), input.clone());
+                } else if got != want {
+                    rep.violation(
+                        &format!("{note}: the `use` item built by library! names {:?}; the declaration names {:?}", got, want),
+                        "macro-use-paths",
+                        json!({"macro": note, "libs": libs_json(&[tree.clone()]), "use": text, "declaration": k, "emitted": got, "named": want}),
+                    );
+                }
+            }
+            if emitted.len() != decls.len() {
+                rep.violation(&format!("{note}: {} use declarations, {} Use items", decls.len(), emitted.len()), "macro-use-paths", input.clone());
+            }
+        }
+        // (a wrong `use` path is reported above; here the tree apart from what the uses say)
+        let strip = |x: String| if uses.is_some() { x.split(' ').filter(|w| !w.starts_with("use") && !w.contains("::")).collect::<Vec<_>>().join(" ") } else { x };
+        let (a, b) = (strip(dump_line(&dumped, true)), strip(tree_line(&tree, true)));
+        if a != b {
+            rep.violation(&format!("{note}: library! built [{a}], written [{b}]"), "macro-item-tree", input.clone());
+        } else {
+            let (a, b) = (strip(dump_line(&dumped, false)), strip(tree_line(&tree, false)));
+            if a != b {
+                rep.mismatch(&format!("{note}: library! built [{a}], written [{b}] (order of items)"), input.clone());
+            }
+        }
+        // … and behave the same
         let spec = Spec::new().check(&tree).1;
         let mut probes = vec![];
         for (q, target, nested) in spec.reachable() {
@@ -1545,8 +1987,9 @@ fn macro_cases(rep: &mut Report, drv: &mut Driver) {
             }
         }
         rep.evaluations += 1;
+        rep.hist("macro probes", (probes.len() / 10 * 10).to_string());
         let out = catch_unwind(AssertUnwindSafe(|| {
-            let mut rt = Runtime::from_lib(mk())?;
+            let mut rt = Runtime::from_lib(lib)?;
             rt.add(helpers(&spec.types.keys().cloned().collect()))?;
             Ok::<_, RegistrationError>(rt)
         }));
@@ -1559,19 +2002,34 @@ fn macro_cases(rep: &mut Report, drv: &mut Driver) {
                         _ => false,
                     };
                     if !ok {
-                        rep.violation(&format!("{note}: item not usable at {}: {:?}", p.path.join("."), sn), "unreachable-at-declared-path macro", json!({"macro": note, "libs": libs_json(&[tree.clone()])}));
+                        let key = if sn == Seen::Panic { "panic compile macro" } else { "unreachable-at-declared-path macro" };
+                        rep.violation(&format!("{note}: item with tag {:?} not usable at {}: {:?}", p.expect, p.path.join("."), sn), key, input.clone());
                     }
                 }
             }
-            Ok(Err(e)) => rep.violation(&format!("{note}: rejected: {}", err_kind(&e)), &format!("rejected-valid {} macro", err_kind(&e)), json!({"macro": note, "libs": libs_json(&[tree.clone()])})),
-            Err(_) => rep.violation(&format!("{note}: panicked"), "panic add macro", json!({"macro": note, "libs": libs_json(&[tree.clone()])})),
+            Ok(Err(e)) => rep.violation(&format!("{note}: rejected: {}", err_kind(&e)), &format!("rejected-valid {} macro", err_kind(&e)), input.clone()),
+            Err(_) => rep.violation(&format!("{note}: panicked"), "panic add macro", input.clone()),
         }
     }
 }
 
 // ------------------------------------------------------------------ entry points
 
+/// the built-in library is itself registered through `library!` / `Rt::add`: if that fails nothing else can run
+fn runtime_constructible(rep: &mut Report) -> bool {
+    if catch_unwind(|| { let _ = Runtime::new(); }).is_ok() {
+        return true;
+    }
+    let m = PANIC_MSG.lock().map(|g| g.clone()).unwrap_or_default();
+    rep.evaluations += 1;
+    rep.violation(&format!("Runtime::new() panicked (registration of the built-in library): {m}"), "panic runtime-new", json!({"libs": [[]], "note": "Runtime::new()", "index": 0}));
+    false
+}
+
 fn run_range(seed: u64, from: u64, n: u64, rep: &mut Report) {
+    if !runtime_constructible(rep) {
+        return;
+    }
     let mut drv = Driver::spawn().expect("lean driver");
     let fixed = fixed_cases();
     for index in from..from + n {
@@ -1587,7 +2045,7 @@ fn run_range(seed: u64, from: u64, n: u64, rep: &mut Report) {
             }
             check_session(rep, &mut drv, &[libs.clone(), rev], note, index)
         } else if index as usize == fixed.len() {
-            macro_cases(rep, &mut drv);
+            macro_cases(rep, &mut drv, None);
             continue;
         } else {
             let (variants, note) = gen_case(seed, index);
@@ -1614,6 +2072,8 @@ fn main() {
                 let (variants, note) = if (last as usize) < fixed_cases().len() {
                     let (l, n) = fixed_cases()[last as usize].clone();
                     (vec![l], n.to_string())
+                } else if last as usize == fixed_cases().len() {
+                    (vec![vec![]], "library! fixtures".to_string())
                 } else {
                     gen_case(seed, last)
                 };
@@ -1628,7 +2088,7 @@ fn main() {
                     json!({"libs": libs_json(&variants[0]), "note": note, "index": last}),
                 );
             });
-            rep.notes.push(format!("sessions {total}; every session runs on 2-24 item orders; fixed boundary table {} cases + 3 library! shapes", fixed_cases().len()));
+            rep.notes.push(format!("sessions {total}; every session runs on 2-24 item orders; fixed boundary table {} cases + {} library!-built libraries ({} use-tree fixtures: every one's Use items compared with the property's reading and with the model's flattenSpec, item tree compared with what was written, every imported name resolved from a script)", fixed_cases().len(), macro_case_list().len(), use_fixtures().len()));
             rep.emit();
         }
         Some("worker") => {
@@ -1642,6 +2102,10 @@ fn main() {
         Some("replay") => {
             let v: J = serde_json::from_str(&args[2]).expect("json");
             let mut rep = Report::default();
+            if !runtime_constructible(&mut rep) {
+                rep.emit();
+                return;
+            }
             let mut drv = Driver::spawn().expect("lean driver");
             let libs = libs_from_json(&v["libs"]);
             let mut variants = vec![];
@@ -1655,7 +2119,9 @@ fn main() {
             }
             variants.push(rev);
             if !v["macro"].is_null() {
-                macro_cases(&mut rep, &mut drv);
+                macro_cases(&mut rep, &mut drv, v["macro"].as_str());
+                rep.emit();
+                return;
             }
             let r = check_session(&mut rep, &mut drv, &variants, v["note"].as_str().unwrap_or("replay"), 0);
             rep.sample(r.sample);
